@@ -31,6 +31,10 @@ def profile(kind):
         y = numpy.ones(x.shape)
     elif kind == 'sin2':
         y = 1. + 0.8 * numpy.sin(2 * math.pi * x)
+    elif kind == 'coarse':
+        # a pulse profile tabulated on a few phase bins (a measured light curve): the quantile function and the cumulative must still be inverses
+        x = numpy.linspace(0., 1., 11)
+        y = 1. + 0.9 * numpy.cos(2 * math.pi * x)
     else:       # narrow peak at phase 0.75 on a small pedestal
         y = 0.02 + numpy.exp(-0.5 * ((x - 0.75) / 0.03) ** 2)
     return xUnivariateGenerator(x, y)
@@ -234,7 +238,8 @@ def explore(chk, budget=1):
         jobs.append((eph, start, phi0, t, impl))
     # generated times
     cases = [dict(profile='peak', periods=2.5, n=200000), dict(profile='sin2', periods=3.5, n=100000), dict(profile='flat', periods=7.3, n=50000),
-             dict(profile='peak', periods=1.2, n=100000), dict(profile='sin2', periods=12345.6, n=50000)]
+             dict(profile='peak', periods=1.2, n=100000), dict(profile='sin2', periods=12345.6, n=50000),
+             dict(profile='coarse', periods=20. + float(g.choice([0.25, 0.35, 0.15])), n=200000), dict(profile='coarse', periods=3.3, n=100000)]
     if not quick:
         cases += [dict(profile=str(g.choice(['peak', 'sin2', 'flat'])), periods=float(10 ** g.uniform(0.1, 6)), n=50000) for _ in range(12 * budget)]
     for c in cases:
